@@ -9,6 +9,8 @@ import tagref
 
 
 def run(c, limit=3000):
+    if c.meta.get("long"):
+        limit = max(limit, 30000)
     new = next((l for l in c.lines if l.startswith("sim.new")), None)
     if new is None:
         return None
